@@ -502,8 +502,8 @@ structure Config where
   dialect : Dialect
   reg : Registry := {}
 
-def ok (w : World) : StepResult := ⟨w, none⟩
-def fail (w : World) (e : Err) : StepResult := ⟨w, some e⟩
+@[reducible] def ok (w : World) : StepResult := ⟨w, none⟩
+@[reducible] def fail (w : World) (e : Err) : StepResult := ⟨w, some e⟩
 
 /-- fill the base (or internal client) bucket of the player entity from the packet's stream -/
 def fillPlayer (ent : Entity) (value : Bytes) (base withProps : Bool) : Entity × Option Err :=
